@@ -90,3 +90,32 @@ Definition site_ok (s : site) : bool :=
   | TreeInternal => true
   | Unknown => false
   end.
+
+(* ------------------------------------------------------------------ ranges built inside the handlers *)
+(** rowan / text-size [TextRange::new(start, end)]: assert!(start.raw <= end.raw) *)
+Definition text_range_new (a b : N) : outcome := if b <? a then Crash else Proceeds a.
+
+(** why a [TextRange::new(A, B)] site is ordered (one row of the generated table [range_sites]) *)
+Inductive order_kind :=
+| PlusOffset      (* B is A + TextSize::from(..) *)
+| ShiftedRange    (* A = r.start() + k, B = r.end() + k for one range r *)
+| SameRange       (* A = r.start(), B = r.end() *)
+| GuardedOrder    (* an `if A > B { return }` precedes the site, or it stands inside `if A < B {` / `if B > A {` *)
+| Reviewed        (* order follows from the surrounding code; reviewed by hand, pinned to a hash of the function *)
+| UnknownOrder.   (* anything else *)
+
+Record range_site := { r_file : string; r_fn : string; r_kind : order_kind }.
+
+Definition range_site_ok (s : range_site) : bool :=
+  match r_kind s with UnknownOrder => false | _ => true end.
+
+(** the construction at a site, given the values involved: [a], [b] arbitrary; [k] an offset; [s <= e] a rowan range *)
+Definition range_site_entry (kind : order_kind) (a b k : N) : outcome :=
+  match kind with
+  | PlusOffset => text_range_new a (a + k)
+  | ShiftedRange => text_range_new (N.min a b + k) (N.max a b + k)    (* r = [min a b, max a b) *)
+  | SameRange => text_range_new (N.min a b) (N.max a b)
+  | GuardedOrder => if b <? a then RetNone else text_range_new a b
+  | Reviewed => if b <? a then RetNone (* excluded by the reviewed invariant *) else text_range_new a b
+  | UnknownOrder => text_range_new a b
+  end.
